@@ -159,10 +159,8 @@ def _any_key(c):
         try:
             kv.INDEXES[c["index"]].to_key(tuple(m) if isinstance(m, list) else m)
             return True
-        except ValueError:
+        except (ValueError, OverflowError):
             pass
-        except OverflowError:
-            return True
     return c["index"] == "created_at"
 
 
@@ -203,3 +201,846 @@ def suite_multi(tier, seed):
         if mo != io:
             s.disagree(dict(brief, keys=c["keys"]), mo, io)
     return s
+
+
+# =============================================================================
+# Query level: planner, stored answers, oracles (owner: kvquery)
+# =============================================================================
+import hashlib as _hashlib
+
+MAX_LIMIT = 5          # Config.max_limit used by the query suites (small, so the cap is reachable)
+QTS = [1000, 1001, 1002, 1010, 1011, 1012, 2000]
+QBOUNDS = [0, 999, 1000, 1001, 1002, 1009, 1010, 1011, 1012, 1013, 3000]
+QKINDS = [1, 2, 6, 7, 8, 255, 256, 40000]
+QVALS = ["ab", "abc", "a", "ab\x00", "", "b", "ü", "ab'", "AB"]
+QNAMES = ["t", "e", "p", "d", "x"]
+
+
+def _env():
+    from . import env
+    return env
+
+
+def grind_event(who, kind, created_at, tags, first_byte=None):
+    """a genuine signed event; content nonce ground so that the id starts with the wanted byte"""
+    env = _env()
+    if first_byte is None:
+        return env.mk_event(who, kind, created_at, tags, "")
+    for n in range(200000):
+        content = "n%d" % n
+        if bytes.fromhex(env.compute_id(env.PUBS[who], created_at, kind, [list(t) for t in tags], content))[0] == first_byte:
+            return env.mk_event(who, kind, created_at, tags, content)
+    raise RuntimeError("grind failed")
+
+
+def delegation_tag(delegator, delegatee, conditions="kind=1"):
+    env = _env()
+    to_sign = ":".join(["nostr", "delegation", env.PUBS[delegatee], conditions]).encode("utf8")
+    sig = env.PRIVS[delegator].sign_schnorr(_hashlib.sha256(to_sign).digest(), None).hex()
+    return ["delegation", env.PUBS[delegator], conditions, sig]
+
+
+def gen_history(rng, n, delegation=True):
+    """mostly regular kinds (no replacement / deletion side effects), timestamps with ties, tag values that
+    prefix / extend one another, e/p tags with 64-hex values, a few ids ground to start 00 / ff, a few delegated events"""
+    env = _env()
+    evs = []
+    for _ in range(n):
+        who = rng.randrange(4)
+        kind = rng.choice(QKINDS)
+        ts = rng.choice(QTS)
+        tags = []
+        for _ in range(rng.choice([0, 1, 1, 2, 3])):
+            name = rng.choice(QNAMES)
+            if name in ("e", "p") and rng.random() < 0.6:
+                val = rng.choice(env.PUBS) if name == "p" else (evs[rng.randrange(len(evs))]["id"] if evs else "00" * 32)
+            else:
+                val = rng.choice(QVALS)
+            t = [name, val]
+            if rng.random() < 0.15:
+                t.append("extra")
+            tags.append(t)
+        if rng.random() < 0.1:
+            tags.append([rng.choice(QNAMES)])          # bare tag
+        if delegation and rng.random() < 0.12:
+            tags.append(delegation_tag((who + 1 + rng.randrange(3)) % 4, who))
+        fb = rng.choice([None] * 8 + [0x00, 0xFF])
+        evs.append(grind_event(who, kind, ts, tags, fb))
+    return evs
+
+
+def decode_dump(items):
+    """[(key, value)] of the shim -> wire db [[key, event|None]] + the stored events"""
+    from msgpack import unpackb
+    db, stored = [], []
+    for k, v in items:
+        if k[:1] == b"\x00" and v:
+            t = unpackb(v, use_list=True)
+            ev = {"id": bytes(t[1]).hex(), "created_at": t[2], "kind": t[3], "pubkey": bytes(t[4]).hex(), "content": t[5],
+                  "tags": [[str(x) for x in tg] for tg in t[6]], "sig": bytes(t[7]).hex()}
+            db.append([k, ev])
+            stored.append(ev)
+        else:
+            db.append([k, None])
+    return db, stored
+
+
+_STORE_NO = [0]
+
+
+async def load_store(events, max_limit=MAX_LIMIT):
+    env = _env()
+    import lmdb
+    env.load_config(max_limit=max_limit)
+    _STORE_NO[0] += 1
+    path = "kvquery-%d" % _STORE_NO[0]
+    lmdb.wipe(path)          # the shim keeps environments by path: always start from an empty one
+    st = await env.kv_storage(path=path)
+    rejected = 0
+    for e in events:
+        try:
+            await st.add_event(dict(e))
+        except Exception:
+            rejected += 1
+    await env.quiesce(st)
+    return st, rejected
+
+
+def validate_filter(raw):
+    from nostr_relay.storage.base import NostrQuery
+    import copy
+    return NostrQuery.model_validate(copy.deepcopy(raw))
+
+
+def wire_filter(q):
+    """validated NostrQuery -> the model's filter record"""
+    return {"ids": list(q.ids) if q.ids is not None else None,
+            "authors": list(q.authors) if q.authors is not None else None,
+            "kinds": list(q.kinds) if q.kinds is not None else None,
+            "since": q.since, "until": q.until, "limit": q.limit,
+            "tags": [[n, sorted(vs)] for n, vs in (q.tags or [])]}
+
+
+def canon_plan_impl(p):
+    from nostr_relay.storage import kv
+    names = {id(ix): n for n, ix in kv.INDEXES.items()}
+
+    def cm(m):
+        return list(m) if isinstance(m, tuple) else m
+    items = []
+    for k, v in p.query:
+        if k in ("since", "until"):
+            items.append([k, v])
+        elif k in ("ids", "kinds", "authors"):
+            items.append([k, list(v)])
+        else:
+            items.append(["#", k, sorted(v)])
+    if isinstance(p.index, kv.MultiIndex):
+        index = {"multi": [{"index": names[id(ix)], "matches": [cm(m) for m in ms]} for (ix, _), ms in zip(p.index.indexes, p.matches)]}
+    else:
+        index = {"index": names[id(p.index)], "matches": [cm(m) for m in p.matches]}
+    return {"query": items, "index": index, "limit": p.limit, "since": p.since, "until": p.until}
+
+
+def canon_plan_model(p):
+    q = [[it[0], it[1], sorted(it[2])] if it[0] == "#" else it for it in p["query"]]
+    return dict(p, query=q)
+
+
+def impl_plans(filters, default_limit=None, max_limit=None):
+    from nostr_relay.storage import kv
+    qs = [validate_filter(f) for f in filters]
+    kw = {}
+    if max_limit is not None:
+        kw["max_limit"] = max_limit
+    return qs, kv.planner(qs, default_limit=default_limit, **kw)
+
+
+# ---- filter generation ------------------------------------------------------
+def gen_filter(rng, evs, limits=True):
+    """a (mostly) well-formed filter; values are taken from the stored events most of the time so that answers are non-empty"""
+    env = _env()
+    f = {}
+    shape = rng.random()
+    if shape < 0.05:
+        fields = []                                  # no condition at all / limit only
+    elif shape < 0.5:
+        fields = [rng.choice(["ids", "kinds", "authors", "tag", "window"])]
+    elif shape < 0.92:
+        fields = rng.sample(["ids", "kinds", "authors", "tag", "tag2", "window"], rng.choice([2, 2, 3, 4]))
+    else:
+        fields = ["ids", "kinds", "authors", "tag", "window"]
+    anchor = rng.choice(evs) if evs and rng.random() < 0.75 else None     # an event the conjunction should hit
+
+    def pick(stored, other):
+        if stored and rng.random() < 0.8:
+            return rng.choice(stored)
+        return rng.choice(other)
+    for fld in fields:
+        if fld == "ids":
+            k = rng.choice([1, 1, 2, 3])
+            vals = [pick([e["id"] for e in evs], ["00" * 32, "ff" * 32]) for _ in range(k)]
+            if anchor:
+                vals[0] = anchor["id"]
+            if rng.random() < 0.1:
+                vals.append(rng.choice(vals) + rng.choice(["ab", "a", "0"]))   # longer than 64: matches nothing (R6)
+            if rng.random() < 0.04:
+                vals = []
+            f["ids"] = vals
+        elif fld == "kinds":
+            k = rng.choice([1, 1, 2, 3])
+            vals = [pick([e["kind"] for e in evs], QKINDS + [0, 3, 5, 9, -1, 4294967295, 4294967296]) for _ in range(k)]
+            if anchor:
+                vals[0] = anchor["kind"]
+            if rng.random() < 0.12:
+                vals.append(rng.choice([-1, 4294967296, 9]))
+            f["kinds"] = vals if rng.random() > 0.04 else []
+        elif fld == "authors":
+            k = rng.choice([1, 1, 2])
+            other = env.PUBS + [env.PUBS[0][:-1] + ("0" if env.PUBS[0][-1] != "0" else "1")]
+            vals = [pick([e["pubkey"] for e in evs], other) for _ in range(k)]
+            if anchor:
+                vals[0] = anchor["pubkey"]
+            f["authors"] = vals if rng.random() > 0.04 else []
+        elif fld in ("tag", "tag2"):
+            atags = [t for t in anchor["tags"] if len(t) > 1 and len(t[0]) == 1] if anchor else []
+            if atags and "#" + atags[0][0] not in f:
+                t = rng.choice(atags)
+                name, first = t[0], [t[1]]
+            else:
+                name, first = rng.choice(QNAMES), []
+            k = rng.choice([0, 0, 1, 2])
+            pool = [t[1] for e in evs for t in e["tags"] if len(t) > 1 and t[0] == name]
+            vals = first + [pick(pool, QVALS) for _ in range(k if first else k + 1)]
+            f["#" + name] = vals if rng.random() > 0.04 else []
+        elif fld == "window":
+            w = rng.choice(["since", "until", "both"])
+            c = anchor["created_at"] if anchor else rng.choice(QTS)
+            if w in ("since", "both"):
+                f["since"] = rng.choice([0, c - 1, c - 1, c, c + 1, rng.choice(QBOUNDS)])
+            if w in ("until", "both"):
+                f["until"] = rng.choice([c + 1, c + 1, c, c - 1, 3000, rng.choice(QBOUNDS)])
+    if limits and rng.random() < 0.5:
+        f["limit"] = rng.choice([0, 1, 2, MAX_LIMIT - 1, MAX_LIMIT, MAX_LIMIT + 1, 100])
+    return f
+
+
+def gen_req(rng, evs):
+    n = rng.choice([1, 1, 1, 2, 3, 5, 6])
+    return [gen_filter(rng, evs) for _ in range(n)]
+
+
+# ---- implementation drivers -------------------------------------------------
+async def impl_prepare(st, filters):
+    """what the websocket path plans: BaseStorage.subscribe validates, Subscription.prepare plans"""
+    from nostr_relay.storage import kv
+    from nostr_relay.storage.base import ValidationError
+    qs = []
+    for f in filters:
+        try:
+            qs.append(validate_filter(f))
+        except (ValidationError, ValueError):
+            pass
+    if not qs:
+        return qs, []
+    sub = kv.Subscription(st, "s", qs, queue=None, client_id="c")
+    sub.prepare()
+    return qs, list(sub.query)
+
+
+async def impl_execute(st, plans):
+    """kv.executor on prepared plans: one ordered id list per plan"""
+    from nostr_relay.storage import kv
+    out = []
+    if not plans:
+        return out
+    qp = kv.QueryPlans(plans)
+    async for plan, events in kv.executor(st.db, qp, st.query_pool, loop=st.loop):
+        out.append([e.id for e in events])
+    return out
+
+
+async def close_store(st):
+    env = _env()
+    import lmdb
+    path = st.options.get("path") if hasattr(st, "options") else None
+    await env.close(st)
+    if path:
+        lmdb.wipe(path)
+
+
+async def impl_req(st, filters):
+    env = _env()
+    evs, outcome = await env.req(st, filters)
+    return [env.ev_obj(e) for e in evs], outcome
+
+
+def model_reqs(db, reqs, max_limit, default_limit=None):
+    """model answers for many REQs on one store"""
+    return model_batch("kvm.answers", [{"db": db, "reqs": [{"filters": r} for r in reqs], "default_limit": default_limit,
+                                        "max_limit": max_limit}], pid="KVM")[0]
+
+
+# ---- suites -----------------------------------------------------------------
+def suite_plan(tier, seed):
+    s = Suite("corr:kv-plan")
+    s.rule = ("REQs of 1-6 generated filters (ids/kinds/authors/#tags/since/until/limit, single and multiple values, empty lists, "
+              "64- and 66-digit ids, limits 0,1,..,max_limit+1) validated by the real NostrQuery.model_validate; plans of "
+              "Subscription.prepare (websocket path, Config.max_limit=%d) and of planner(default_limit=600000) (run_single_query) vs "
+              "KVM.Plan.planner: query items, index / stages in order, matches in order, limit, since, until; "
+              "non-trivial = at least one plan and one skipped filter or a multi-index plan" % MAX_LIMIT)
+    env = _env()
+    rng = rng_for(seed, "kvplan")
+    n = 400 if tier == "quick" else 6000
+    evs = gen_history(rng, 12)
+    cases, impls = [], []
+
+    async def go():
+        st, _ = await load_store([])
+        for _ in range(n):
+            req = gen_req(rng, evs)
+            qs, plans = await impl_prepare(st, req)
+            mode = rng.choice(["ws", "ws", "single"])
+            if mode == "single":
+                from nostr_relay.storage import kv
+                plans = list(kv.planner(qs, default_limit=600000))
+            impls.append([canon_plan_impl(p) for p in plans])
+            cases.append({"filters": [wire_filter(q) for q in qs], "default_limit": 600000 if mode == "single" else None,
+                          "max_limit": None if mode == "single" else MAX_LIMIT, "_raw": req})
+        await close_store(st)
+    env.run(go())
+    outs = model_batch("kvm.plan", [{k: v for k, v in c.items() if k != "_raw"} for c in cases], pid="KVM")
+    for c, mo, io in zip(cases, outs, impls):
+        mo = [canon_plan_model(p) for p in mo]
+        multi = any("multi" in p["index"] for p in io)
+        s.case(c["_raw"], nontrivial=bool(io) and (multi or len(io) < len(c["filters"])))
+        s.count("plans_%d" % len(io))
+        s.count("filters_%d" % len(c["filters"]))
+        for p in io:
+            s.count("index_" + ("multi" if "multi" in p["index"] else p["index"]["index"]))
+        if mo != io:
+            s.disagree(c["_raw"], mo, io)
+    return s
+
+
+def _store_cases(rng, tier, n_hist_q, n_hist_t, n_events):
+    return (n_hist_q if tier == "quick" else n_hist_t), n_events
+
+
+def suite_answer(tier, seed):
+    s = Suite("corr:kv-answer")
+    s.rule = ("histories of 0-16 signed events loaded through the real LMDBStorage.add_event / WriterThread, then REQs of 1-6 generated "
+              "filters; per plan the ordered id list of kv.executor on the plans of Subscription.prepare vs KVM.Exec.execute_one_plan on "
+              "the keyspace dump (multi-index plans: as sets; when truncated: size and inclusion in the model's untruncated set); the "
+              "flattened answer of BaseStorage.subscribe (env.req) must equal the concatenation; non-trivial = some plan returns a "
+              "non-empty strict subset of the stored events")
+    env = _env()
+    rng = rng_for(seed, "kvanswer")
+    n_hist = 30 if tier == "quick" else 400
+    per = 25 if tier == "quick" else 60
+    jobs = []
+
+    async def go():
+        for _ in range(n_hist):
+            evs = gen_history(rng, rng.choice([0, 1, 3, 6, 10, 16]))
+            st, _ = await load_store(evs)
+            db, stored = decode_dump((await env.dump(st))["kv"])
+            reqs, impls = [], []
+            for _ in range(per):
+                req = gen_req(rng, evs)
+                qs, plans = await impl_prepare(st, req)
+                per_plan = await impl_execute(st, plans)
+                flat, outcome = await impl_req(st, req)
+                reqs.append([wire_filter(q) for q in qs])
+                impls.append({"plans": per_plan, "flat": [e["id"] for e in flat], "outcome": outcome, "raw": req})
+            jobs.append((db, stored, reqs, impls))
+            await close_store(st)
+    env.run(go())
+    for db, stored, reqs, impls in jobs:
+        mouts = model_reqs(db, reqs, MAX_LIMIT)
+        for req, io, mo in zip(reqs, impls, mouts):
+            brief = {"filters": io["raw"], "n_stored": len(stored)}
+            nt = any(0 < len(p) < len(stored) for p in io["plans"])
+            s.case(brief, nontrivial=nt)
+            s.count("plans_%d" % len(io["plans"]))
+            s.count("answers_%s" % ("0" if not io["flat"] else ("1" if len(io["flat"]) == 1 else "n")))
+            bad = len(mo) != len(io["plans"])
+            if not bad:
+                for mp, ip in zip(mo, io["plans"]):
+                    if mp["scan"] == "fuel":
+                        bad = True
+                    elif not mp["multi"]:
+                        bad = bad or mp["ids"] != ip
+                    elif len(mp["ids"]) == len(mp["full"]):
+                        bad = bad or sorted(mp["ids"]) != sorted(ip)
+                    else:
+                        bad = bad or len(ip) != len(mp["ids"]) or not set(ip) <= set(mp["full"]) or len(set(ip)) != len(ip)
+                    s.count("multi" if mp["multi"] else "single")
+            if bad:
+                s.disagree(dict(brief, stored=stored), mo, io["plans"])
+            if sorted(io["flat"]) != sorted(x for p in io["plans"] for x in p) or io["outcome"] != "eose":
+                s.disagree(dict(brief, stored=stored), {"concat": [x for p in io["plans"] for x in p]}, {"flat": io["flat"], "outcome": io["outcome"]})
+    return s
+
+
+def classify(prop, o, n_ans, eff):
+    if prop == "c01":
+        return "c01:unsound"
+    if prop == "c02":
+        if o["range_scan_refused"]:
+            return "kv_range_scan_refused"
+        if o["delegator_only"]:
+            return "delegator_only_match"
+        return "c02:incomplete-or-duplicate"
+    if n_ans > eff:
+        return "c12:over-limit"
+    if o["delegator_only"]:
+        return "delegator_only_match"
+    if o["multi_match"]:
+        return "kv_multi_match_truncated"
+    return "c12:not-newest"
+
+
+def suite_oracle(tier, seed, props=("c01", "c02", "c12"), name="oracle:kv", label="kvoracle"):
+    """the executable statements of C01/C02/C12 on the answers of single-filter REQs through the websocket path"""
+    s = Suite(name)
+    s.rule = ("single-filter REQs through BaseStorage.subscribe on stores loaded by the real write path; retrievable set = primary records "
+              "of the keyspace dump; KVM.Spec.holds_%s (from Lib.Nip01.must_match / may_match) evaluated on the implementation's "
+              "answer; limits 0,1,max_limit-1,max_limit,max_limit+1,100 with Config.max_limit=%d and stores with fewer / as many / "
+              "more matching events; non-trivial = the filter must-matches a non-empty strict subset of the stored events"
+              % ("/".join(p.upper() for p in props), MAX_LIMIT))
+    env = _env()
+    rng = rng_for(seed, label)
+    n_hist = 30 if tier == "quick" else 300
+    per = 40 if tier == "quick" else 100
+    cases = []
+
+    async def go():
+        for _ in range(n_hist):
+            evs = gen_history(rng, rng.choice([1, 3, 6, 10, 16, 24]))
+            st, _ = await load_store(evs)
+            db, stored = decode_dump((await env.dump(st))["kv"])
+            for _ in range(per):
+                raw = gen_filter(rng, evs)
+                try:
+                    q = validate_filter(raw)
+                except Exception:
+                    continue
+                ans, outcome = await impl_req(st, [raw])
+                cases.append({"stored": stored, "filter": wire_filter(q), "answer": ans, "max_limit": MAX_LIMIT, "_raw": raw, "_outcome": outcome})
+            await close_store(st)
+    env.run(go())
+    outs = model_batch("kvm.oracle", [{k: v for k, v in c.items() if not k.startswith("_")} for c in cases], pid="KVM")
+    for c, o in zip(cases, outs):
+        brief = {"filter": c["_raw"], "n_stored": len(c["stored"]), "n_answer": len(c["answer"])}
+        s.case(brief, nontrivial=0 < o["n_must"] < len(c["stored"]))
+        s.count("under_limit" if o["under_limit"] else "over_limit")
+        s.count("answer_%s" % ("0" if not c["answer"] else "n"))
+        lim = c["filter"]["limit"]
+        eff = MAX_LIMIT if lim is None else min(lim, MAX_LIMIT)
+        for p in props:
+            if not o[p]:
+                s.violate(classify(p, o, len(c["answer"]), eff), dict(brief, stored=c["stored"], prop=p),
+                          "holds_%s is false on the implementation's answer" % p.upper(),
+                          expected="n_may=%d n_must=%d eff_limit=%d" % (o["n_may"], o["n_must"], eff), observed=[e["id"] for e in c["answer"]])
+        if c["_outcome"] != "eose":
+            s.disagree(brief, "eose", c["_outcome"])
+    return s
+
+
+# ---- C11: relations between pairs of runs -----------------------------------
+BIG = 1000
+
+
+def neighbours(rng, f, evs):
+    """events adjacent, in some index, to what the filter asks for (DESIGN 5/C11): kind +-1, other author, tag values
+    v.c / v[:-1] / v.NUL, timestamps bound +-1 and on the bound, ids ground to start 00 / ff at the same second"""
+    env = _env()
+    out = []
+    kinds = f.get("kinds") or [1]
+    authors = f.get("authors") or [env.PUBS[0]]
+    tagconds = [(k[1], v) for k, v in f.items() if k.startswith("#")]
+    bounds = [b for b in (f.get("since"), f.get("until")) if b is not None] or [1001]
+    tss = sorted({t for b in bounds for t in (b - 1, b, b + 1) if t > 0})
+    for _ in range(rng.choice([3, 5, 8])):
+        who = rng.randrange(4)
+        if rng.random() < 0.5 and f.get("authors"):
+            cand = [i for i, p in enumerate(env.PUBS) if p in authors]
+            who = rng.choice(cand) if cand and rng.random() < 0.7 else who
+        k = rng.choice(kinds)
+        kind = rng.choice([k, k + 1, max(0, k - 1), k + 256, k])
+        if kind in (0, 3, 5) or 10000 <= kind < 40000:
+            kind = 1
+        ts = rng.choice(tss + QTS[:3])
+        tags = []
+        for name, vals in tagconds:
+            v = rng.choice(vals) if vals else "ab"
+            nv = rng.choice([v + "c", v[:-1], v + "\x00", v + "\x00z", v, v.upper(), "\x00" + v])
+            nm = rng.choice([name, name, chr(ord(name) + 1)])
+            tags.append([nm, nv])
+        if rng.random() < 0.3:
+            tags.append([rng.choice(QNAMES), rng.choice(QVALS)])
+        out.append(grind_event(who, kind, ts, tags, rng.choice([None, None, 0x00, 0xFF])))
+    return out
+
+
+def big_filter(rng, evs):
+    f = gen_filter(rng, evs, limits=False)
+    f["limit"] = BIG
+    return f
+
+
+def model_match(pairs):
+    """[(validated wire filter, event)] -> [{must, may, residual}]"""
+    return model_batch("kvm.match", [{"filter": f, "event": e} for f, e in pairs], pid="KVM")
+
+
+def suite_frame(tier, seed):
+    s = Suite("rel:kv-frame")
+    s.rule = ("C11(1): the answer to a filter on a store, and on the same store after adding neighbour events that cannot match it "
+              "(Lib.Nip01.may_match false; kind +-1, tag values extending / prefixing / NUL-extending the requested ones, timestamps on "
+              "and next to the bounds, ids starting 00 / ff), must be the same set; Config.max_limit=%d so nothing truncates; "
+              "non-trivial = non-empty answer and at least one neighbour added" % BIG)
+    env = _env()
+    rng = rng_for(seed, "kvframe")
+    n_hist = 25 if tier == "quick" else 250
+    per = 6 if tier == "quick" else 10
+    results = []
+
+    async def go():
+        for _ in range(n_hist):
+            evs = gen_history(rng, rng.choice([2, 5, 9, 14]), delegation=False)
+            st, _ = await load_store(evs, max_limit=BIG)
+            for _ in range(per):
+                raw = big_filter(rng, evs)
+                try:
+                    q = wire_filter(validate_filter(raw))
+                except Exception:
+                    continue
+                cand = neighbours(rng, raw, evs)
+                verdicts = model_match([(q, e) for e in cand])
+                added = [e for e, v in zip(cand, verdicts) if not v["may"]]
+                a1, o1 = await impl_req(st, [raw])
+                for e in added:
+                    try:
+                        await st.add_event(dict(e))
+                    except Exception:
+                        pass
+                await env.quiesce(st)
+                a2, o2 = await impl_req(st, [raw])
+                results.append((raw, [e["id"] for e in a1], [e["id"] for e in a2], added, o1, o2))
+            await close_store(st)
+    env.run(go())
+    rels = model_batch("kvm.rel", [{"a": a1, "b": a2} for _, a1, a2, _, _, _ in results], pid="KVM")
+    for (raw, a1, a2, added, o1, o2), r in zip(results, rels):
+        brief = {"filter": raw, "n_added": len(added)}
+        s.case(brief, nontrivial=bool(a1) and bool(added))
+        s.count("added_%d" % min(len(added), 8))
+        s.count("answer_%s" % ("0" if not a1 else "n"))
+        if not r["same"]:
+            s.violate("c11:frame", dict(brief, added=added), "adding non-matching neighbour events changed the answer", expected=sorted(a1), observed=sorted(a2))
+    return s
+
+
+def refine(rng, f, evs):
+    """f' with one more condition or a smaller window"""
+    env = _env()
+    g = {k: (list(v) if isinstance(v, list) else v) for k, v in f.items()}
+    opts = []
+    if "kinds" not in g:
+        opts.append("kinds")
+    if "authors" not in g:
+        opts.append("authors")
+    if "ids" not in g and evs:
+        opts.append("ids")
+    opts += ["tag", "since", "until", "drop_value"]
+    what = rng.choice(opts)
+    if what == "kinds":
+        g["kinds"] = [rng.choice(QKINDS) for _ in range(rng.choice([1, 2]))]
+    elif what == "authors":
+        g["authors"] = [rng.choice(env.PUBS)]
+    elif what == "ids":
+        g["ids"] = [rng.choice(evs)["id"] for _ in range(rng.choice([1, 2]))]
+    elif what == "tag":
+        names = [n for n in QNAMES if "#" + n not in g]
+        if names:
+            n = rng.choice(names)
+            pool = QVALS + [t[1] for e in evs for t in e["tags"] if len(t) > 1 and t[0] == n]
+            g["#" + n] = [rng.choice(pool) for _ in range(rng.choice([1, 2]))]
+    elif what == "since":
+        g["since"] = max(g.get("since", 0), rng.choice(QBOUNDS))
+    elif what == "until":
+        g["until"] = min(g.get("until", 2000000000), rng.choice(QBOUNDS))
+    else:
+        multi = [k for k, v in g.items() if isinstance(v, list) and len(set(v)) > 1]
+        if multi:
+            k = rng.choice(multi)
+            g[k] = g[k][:-1]
+    return g
+
+
+def suite_monotone(tier, seed):
+    s = Suite("rel:kv-monotone")
+    s.rule = ("C11(2): f' = f plus one condition (kinds / authors / ids / #tag), a later since, an earlier until or one value less; "
+              "answer(f') must be a subset of answer(f) on the same store; Config.max_limit=%d; non-trivial = answer(f) non-empty and "
+              "answer(f') a strict subset" % BIG)
+    env = _env()
+    rng = rng_for(seed, "kvmono")
+    n_hist = 20 if tier == "quick" else 200
+    per = 25 if tier == "quick" else 50
+    results = []
+
+    async def go():
+        for _ in range(n_hist):
+            evs = gen_history(rng, rng.choice([3, 6, 10, 16]), delegation=False)
+            st, _ = await load_store(evs, max_limit=BIG)
+            for _ in range(per):
+                f = big_filter(rng, evs)
+                g = refine(rng, f, evs)
+                try:
+                    qf = wire_filter(validate_filter(f))
+                    validate_filter(g)
+                except Exception:
+                    continue
+                a, _o = await impl_req(st, [f])
+                b, _o = await impl_req(st, [g])
+                results.append((f, g, qf, [e["id"] for e in a], [e["id"] for e in b]))
+            await close_store(st)
+    env.run(go())
+    rels = model_batch("kvm.rel", [{"a": b, "b": a} for _, _, _, a, b in results], pid="KVM")
+    refused = model_batch("kvm.oracle", [{"stored": [], "filter": qf, "answer": [], "max_limit": BIG} for _, _, qf, _, _ in results], pid="KVM")
+    for (f, g, qf, a, b), r, o in zip(results, rels, refused):
+        brief = {"f": f, "f_refined": g}
+        s.case(brief, nontrivial=bool(a) and len(b) < len(a))
+        s.count("answers_%s_%s" % ("0" if not a else "n", "0" if not b else "n"))
+        if not r["subset"]:
+            s.violate("kv_range_scan_refused" if o["range_scan_refused"] else "c11:monotone", brief,
+                      "adding a condition / shrinking the window added results", expected=sorted(a), observed=sorted(b))
+    return s
+
+
+def suite_union(tier, seed):
+    s = Suite("rel:kv-union")
+    s.rule = ("C11(3): for a filter with a multi-valued field (ids / kinds / authors / one #tag) the answer must equal the union of the "
+              "answers to the same filter with each single value; Config.max_limit=%d; non-trivial = at least two values contribute" % BIG)
+    env = _env()
+    rng = rng_for(seed, "kvunion")
+    n_hist = 20 if tier == "quick" else 200
+    per = 20 if tier == "quick" else 40
+    results = []
+
+    async def go():
+        for _ in range(n_hist):
+            evs = gen_history(rng, rng.choice([3, 6, 10, 16]), delegation=False)
+            st, _ = await load_store(evs, max_limit=BIG)
+            for _ in range(per):
+                f = big_filter(rng, evs)
+                multi = [k for k, v in f.items() if isinstance(v, list) and len(set(v)) > 1]
+                if not multi:
+                    continue
+                k = rng.choice(multi)
+                try:
+                    validate_filter(f)
+                except Exception:
+                    continue
+                whole, _o = await impl_req(st, [f])
+                parts = []
+                for v in sorted(set(f[k]), key=repr):
+                    a, _o = await impl_req(st, [dict(f, **{k: [v]})])
+                    parts.append([e["id"] for e in a])
+                results.append((f, k, [e["id"] for e in whole], parts))
+            await close_store(st)
+    env.run(go())
+    rels = model_batch("kvm.rel", [{"a": w, "b": [x for p in parts for x in p]} for _, _, w, parts in results], pid="KVM")
+    for (f, k, w, parts), r in zip(results, rels):
+        brief = {"filter": f, "field": k}
+        s.case(brief, nontrivial=sum(1 for p in parts if p) >= 2)
+        s.count("field_" + ("tag" if k.startswith("#") else k))
+        if not r["same"]:
+            s.violate("c11:union", brief, "answer to the multi-valued condition differs from the union of the single-value answers",
+                      expected=sorted({x for p in parts for x in p}), observed=sorted(w))
+    return s
+
+
+# ---- C01: hostile filter contents ---------------------------------------------
+HOSTILE = ["'", "''", "\\", "\\'", '"', "%", "_", "--", "/*", ";", ")", "\x00", "\n", "‮", "é", "\U0001F600", "{", "}", "{0}",
+           "!r", "{value!r}", "__import__('os').system('x')", "' OR 1=1)) --", "1" * 70, "')]) or True or bool([('", "\\x00", "%s", "\ud800",
+           "et[1]", "',) or True or ('"]
+HOSTILE_NAMES = ["'", "\\", '"', "\x00", "é", "\U0001F600", "{", "%", ")", "t"]
+
+
+def suite_hostile(tier, seed):
+    s = Suite("oracle:kv-hostile")
+    s.rule = ("C01 filters-are-data: ~30 metacharacter strings (quotes, backslash, NUL, braces, !r, __import__, repr-breakers, lone "
+              "surrogate, RTL / combining / 4-byte code points, 70 digits) as tag value, tag name (1 char), id, author, kind, since, "
+              "until, limit, unknown key, alone and in pairs with list shapes [], [x], [x,x], [x,y], on stores whose events carry the same "
+              "strings as tag values; holds_C01 on every answer; the model's answer must agree; non-trivial = non-empty answer")
+    env = _env()
+    rng = rng_for(seed, "kvhostile")
+    raws = []
+    for h in HOSTILE:
+        for shape in ([h], [h, h], [h, "ab"], []):
+            raws.append({"#t": shape, "limit": BIG})
+        raws.append({"ids": [h]})
+        raws.append({"authors": [h]})
+        raws.append({"kinds": [h]})
+        raws.append({"since": h})
+        raws.append({"until": h, "kinds": [1]})
+        raws.append({"limit": h, "kinds": [1]})
+        raws.append({h: [h], "kinds": [1]})
+        raws.append({"#t": [h], "tags": [[h, [h]]], "kinds": [1]})
+        raws.append({"#t": h})
+    for nm in HOSTILE_NAMES:
+        for h in rng.sample(HOSTILE, 6 if tier == "quick" else len(HOSTILE)):
+            raws.append({"#" + nm: [h], "limit": BIG})
+            raws.append({"#" + nm: [h, "ab"], "#t": ["ab"], "limit": BIG})
+    if tier != "quick":
+        for a in HOSTILE:
+            for b in HOSTILE:
+                raws.append({"#t": [a, b], "limit": BIG})
+    events = []
+    for i, h in enumerate(HOSTILE):
+        try:
+            h.encode("utf-8")
+        except UnicodeEncodeError:
+            continue
+        events.append(env.mk_event(i % 4, 1, 1000 + i % 3, [["t", h]], ""))
+        events.append(env.mk_event((i + 1) % 4, 7, 1001, [[HOSTILE_NAMES[i % len(HOSTILE_NAMES)], h], ["t", "ab"]], ""))
+    cases = []
+
+    async def go():
+        st, _ = await load_store(events, max_limit=BIG)
+        db, stored = decode_dump((await env.dump(st))["kv"])
+        for raw in raws:
+            ans, outcome = await impl_req(st, [raw])
+            try:
+                q = wire_filter(validate_filter(raw))
+            except Exception:
+                q = None
+            cases.append((raw, q, ans, outcome))
+        await close_store(st)
+        return db, stored
+    db, stored = env.run(go())
+    valid = [(raw, q, ans) for raw, q, ans, _ in cases if q is not None]
+    outs = model_batch("kvm.oracle", [{"stored": stored, "filter": q, "answer": ans, "max_limit": BIG} for _, q, ans in valid], pid="KVM")
+    mouts = model_reqs(db, [[q] for _, q, _ in valid], BIG)
+    k = 0
+    for raw, q, ans, outcome in cases:
+        brief = {"filter": raw, "n_answer": len(ans)}
+        s.case(brief, nontrivial=bool(ans))
+        s.count("valid" if q is not None else "invalid")
+        if outcome != "eose" and not (q is None and outcome.startswith("error:")):
+            s.disagree(brief, "eose", outcome)
+        if q is None:
+            if outcome != "eose":
+                s.count("invalid_filter_" + outcome)     # e.g. a lone surrogate makes pydantic raise UnicodeEncodeError (base.py / C19)
+            if ans:
+                s.violate("c01:unsound", brief, "an invalid filter was answered with events", expected=[], observed=[e["id"] for e in ans])
+            continue
+        o, mo = outs[k], mouts[k]
+        k += 1
+        if not o["c01"]:
+            s.violate("c01:unsound", dict(brief, stored=stored), "holds_C01 is false on the implementation's answer", observed=[e["id"] for e in ans])
+        mids = [x for p in mo for x in p["ids"]]
+        if sorted(mids) != sorted(e["id"] for e in ans):
+            s.disagree(brief, mids, [e["id"] for e in ans])
+    return s
+
+
+# ---- per-property entry points (used by harness/props/c01.py ... of the coordinator) --------------------------------------
+def suites_c01(tier, seed):
+    return [suite_hostile(tier, seed), suite_oracle(tier, seed, props=("c01",), name="oracle:kv-c01", label="kvc01"),
+            suite_answer(tier, seed)]
+
+
+def suites_c02(tier, seed):
+    return [suite_scan(tier, seed), suite_multi(tier, seed), suite_plan(tier, seed), suite_answer(tier, seed),
+            suite_oracle(tier, seed, props=("c02",), name="oracle:kv-c02", label="kvc02")]
+
+
+def suites_c11(tier, seed):
+    return [suite_frame(tier, seed), suite_monotone(tier, seed), suite_union(tier, seed)]
+
+
+def suites_c12(tier, seed):
+    return [suite_oracle(tier, seed, props=("c12",), name="oracle:kv-c12", label="kvc12")]
+
+
+# ---- corpus: minimised witnesses of the defects found (fixed ones must pass, open ones are reported under their class) -----
+def corpus():
+    env = _env()
+    ev = env.mk_event
+    deleg = ev(1, 1, 1001, [delegation_tag(0, 1)], "delegated")
+    k6 = [ev(0, 6, 1010 + i, [], "six%d" % i) for i in range(3)]
+    k7 = [ev(1, 7, 1000 + i, [], "seven%d" % i) for i in range(3)]
+    plain = [ev(0, 1, 1000, [["t", "ab"]], "a"), ev(1, 7, 1001, [], "b")]
+    many = [ev(i % 4, 1, 1000 + i, [], "m%d" % i) for i in range(8)]
+    return [
+        # (name, property, expected class or None when repaired, events, filter)
+        ("limit-above-max_limit", "C12", None, many, {"kinds": [1], "limit": MAX_LIMIT + 1}),
+        ("limit-null", "C12", None, many, {"kinds": [1], "limit": None}),
+        ("since-zero", "C02", None, plain, {"since": 0, "kinds": [1]}),
+        ("until-zero", "C01", None, plain, {"until": 0, "kinds": [1]}),
+        ("kind-out-of-range", "C02", None, plain, {"kinds": [1, 4294967296]}),
+        ("kind-negative", "C02", None, plain, {"kinds": [-1, 7]}),
+        ("delegator", "C02", "delegator_only_match", [deleg] + plain, {"authors": [env.PUBS[0]], "kinds": [1]}),
+        ("multi-value-limit", "C12", "kv_multi_match_truncated", k6 + k7, {"kinds": [6, 7], "limit": 3}),
+        ("no-condition", "C02", "kv_range_scan_refused", plain, {}),
+        ("limit-only", "C02", "kv_range_scan_refused", plain, {"limit": 3}),
+        ("since-zero-only", "C02", "kv_range_scan_refused", plain, {"since": 0}),
+    ]
+
+
+def run_case(events, raw, max_limit=MAX_LIMIT):
+    """load, query through the websocket path, evaluate the executable statements -> (oracle dict, answer, stored)"""
+    env = _env()
+
+    async def go():
+        st, _ = await load_store(events, max_limit=max_limit)
+        db, stored = decode_dump((await env.dump(st))["kv"])
+        ans, outcome = await impl_req(st, [raw])
+        await close_store(st)
+        return stored, ans, outcome
+    stored, ans, outcome = env.run(go())
+    q = wire_filter(validate_filter(raw))
+    o = model_batch("kvm.oracle", [{"stored": stored, "filter": q, "answer": ans, "max_limit": max_limit}], pid="KVM")[0]
+    return o, ans, stored, q
+
+
+def suite_corpus(tier, seed, only=None):
+    s = Suite("corpus:kv")
+    s.rule = "minimised witnesses of the defects found on the LMDB query path: repaired ones must satisfy C01/C02/C12, open ones are reported under their classifier"
+    for name, prop, cls, events, raw in corpus():
+        if only and prop not in only:
+            continue
+        o, ans, stored, q = run_case(events, raw)
+        brief = {"name": name, "filter": raw, "n_stored": len(stored), "n_answer": len(ans)}
+        s.case(brief)
+        s.count("open" if cls else "repaired")
+        lim = q["limit"]
+        eff = MAX_LIMIT if lim is None else min(lim, MAX_LIMIT)
+        bad = [p for p in ("c01", "c02", "c12") if not o[p]]
+        for p in bad:
+            s.violate(classify(p, o, len(ans), eff), dict(brief, stored=stored, events=events, prop=p), "corpus case %s: holds_%s is false" % (name, p.upper()),
+                      expected="n_may=%d n_must=%d eff_limit=%d" % (o["n_may"], o["n_must"], eff), observed=[e["id"] for e in ans])
+    return s
+
+
+def replay(payload):
+    """./check Cxx --replay: re-run a recorded violation of a kv suite on the implementation"""
+    v = payload.get("violation", payload)
+    c = v["case"]
+    if "events" in c or "stored" in c:
+        events = c.get("events") or c["stored"]
+        raw = c.get("filter")
+        mx = BIG if (isinstance(raw, dict) and raw.get("limit") == BIG) else MAX_LIMIT
+        if "added" in c:
+            print("replay of a frame case: base store + added neighbours")
+            events = events + c["added"]
+        o, ans, stored, q = run_case(events, raw, mx)
+        bad = [p for p in ("c01", "c02", "c12") if not o[p]]
+        print("answer ids:", [e["id"][:8] for e in ans], "n_may", o["n_may"], "n_must", o["n_must"], "failing:", bad)
+        print("replay:", "FAIL" if bad else "pass")
+        return 1 if bad else 0
+    print("replay: case carries no store; re-run the suite with the recorded seed")
+    return 0
